@@ -131,6 +131,26 @@ Section Ren.
     assoc o (map (fun p => (ren (fst p), h (snd p))) m) = None.
   Proof. intros H. induction m as [|[k' v] m IH]; cbn; auto. rewrite (old_ren_neq o k' H). exact IH. Qed.
 
+  Lemma assoc_app {A} k (a b : list (bytes * A)) :
+    assoc k (a ++ b) = match assoc k a with Some v => Some v | None => assoc k b end.
+  Proof. induction a as [|[k' v] a IH]; cbn; auto. destruct (beq k k'); auto. Qed.
+
+  Lemma assoc_del_app {A} k (a b : list (bytes * A)) : assoc_del k (a ++ b) = assoc_del k a ++ assoc_del k b.
+  Proof. induction a as [|[k' v] a IH]; cbn; auto. destruct (beq k k'); cbn; auto. f_equal; auto. Qed.
+
+  Lemma assoc_del_old {A B} (h : A -> B) o (m : list (bytes * A)) : old_id o = true ->
+    assoc_del o (map (fun p => (ren (fst p), h (snd p))) m) = map (fun p => (ren (fst p), h (snd p))) m.
+  Proof. intros H. apply assoc_del_absent. apply assoc_old. exact H. Qed.
+
+  (* keys that are all old ids *)
+  Lemma assoc_ren_olds {A} k (m : list (bytes * A)) : (forall p, In p m -> old_id (fst p) = true) -> assoc (ren k) m = None.
+  Proof.
+    intros H. induction m as [|[k' v] m IH]; cbn; auto.
+    assert (E : beq (ren k) k' = false).
+    { apply beq_neq. intros <-. pose proof (H (ren k, v) (or_introl eq_refl)) as O. cbn in O. rewrite old_id_ren in O. discriminate. }
+    rewrite E. apply IH. intros p Ip. apply H. right. exact Ip.
+  Qed.
+
   (** ** the renaming of records, observations *)
   Definition ren_cb (c : cb) : cb :=
     mkCb (cb_op c) (ren (cb_id c)) (cb_slot c) (cb_ctx c) (cb_cancelled c) (cb_watch c) (cb_ret c).
@@ -233,9 +253,13 @@ Section Ren.
   (** * The embedding of the callback machinery *)
   Section K.
     Variable ocb : list cb.
+    Variable ocl : list (bytes * nat).
     Notation nc := (length ocb).
-    (* the old records bear old ids *)
+    (* the old records bear old ids; the old registrations still pending are keyed by old ids, and their records
+       are cancelled with a watcher that is not blocked (parked, or done) *)
     Hypothesis Hid : forall c, In c ocb -> old_id (cb_id c) = true.
+    Hypothesis Hcl : forall p, In p ocl -> old_id (fst p) = true.
+    Hypothesis Hreg : forall c, In c ocb -> assoc (cb_id c) ocl <> None -> cb_cancelled c = true /\ cb_watch c <> WBlocked.
 
     Definition sh_call (p : bytes * nat) : bytes * nat := (ren (fst p), nc + snd p).
 
@@ -243,12 +267,32 @@ Section Ren.
       mkState (c_K s) (c_push s) (c_builtin s) (c_methods s) (c_unblock s) (map ren_feed (ch_in s)) (send_fail s)
         (running s) (stop_err s) (work_closed s) (closes s) (starts s) (ren_rd (rd s)) (dp s) (inq s)
         (units s) (tasks s) (nbar s) (sem_free s) (sem_wait s) (used s)
-        (map sh_call (calls s)) (dk + call_id s) (ocb ++ map ren_cb (cbs s)) (wg s) (ops s) (waits s) (ended s) (crash s).
+        (map sh_call (calls s) ++ ocl) (dk + call_id s) (ocb ++ map ren_cb (cbs s)) (wg s) (ops s) (waits s) (ended s) (crash s).
 
     Definition renk_label (l : label) : label :=
       match l with LFeed f => LFeed (ren_feed f) | LRelCbWatch i => LRelCbWatch (nc + i) | x => x end.
 
     Definition embkp (x : state * list obs) : state * list obs := (embk (fst x), map ren_obs (snd x)).
+
+    Lemma assoc_k k (m : list (bytes * nat)) : assoc (ren k) (map sh_call m ++ ocl) = option_map (Nat.add nc) (assoc k m).
+    Proof.
+      rewrite assoc_app. unfold sh_call. rewrite assoc_ren. destruct (assoc k m); [reflexivity|].
+      apply assoc_ren_olds. exact Hcl.
+    Qed.
+
+    Lemma assoc_del_k k (m : list (bytes * nat)) :
+      assoc_del (ren k) (map sh_call m ++ ocl) = map sh_call (assoc_del k m) ++ ocl.
+    Proof.
+      rewrite assoc_del_app. unfold sh_call. rewrite assoc_del_ren. f_equal.
+      apply assoc_del_absent. apply assoc_ren_olds. exact Hcl.
+    Qed.
+
+    Lemma assoc_old_k o (m : list (bytes * nat)) : old_id o = true -> assoc o (map sh_call m ++ ocl) = assoc o ocl.
+    Proof. intros H. rewrite assoc_app. unfold sh_call. rewrite (assoc_old _ _ _ H). reflexivity. Qed.
+
+    Lemma assoc_del_old_k o (m : list (bytes * nat)) : old_id o = true ->
+      assoc_del o (map sh_call m ++ ocl) = map sh_call m ++ assoc_del o ocl.
+    Proof. intros H. rewrite assoc_del_app. unfold sh_call. rewrite (assoc_del_old _ _ _ H). reflexivity. Qed.
 
     (** ** tasks, semaphore *)
     Lemma k_cancel_task s k : cancel_task k (embk s) = embk (cancel_task k s).
@@ -285,8 +329,11 @@ Section Ren.
                     | None => c end) (cbs s)).
     Proof.
       cbn [cbs calls embk]. rewrite map_app. f_equal.
-      - rewrite <- (map_id ocb) at 2. apply map_ext_in. intros c Ic. unfold sh_call. rewrite (assoc_old _ _ _ (Hid c Ic)). reflexivity.
-      - rewrite !map_map. apply map_ext. intros c. cbn [cb_id ren_cb]. unfold sh_call. rewrite assoc_ren.
+      - rewrite <- (map_id ocb) at 2. apply map_ext_in. intros c Ic. rewrite (assoc_old_k _ _ (Hid c Ic)).
+        destruct (assoc (cb_id c) ocl) as [j|] eqn:A; [|reflexivity].
+        destruct (Hreg c Ic) as [Hc Hw]; [rewrite A; discriminate|].
+        destruct c as [o i sl cx cc w rt]. cbn in *. subst cc. destruct w; try reflexivity. congruence.
+      - rewrite !map_map. apply map_ext. intros c. cbn [cb_id ren_cb]. rewrite assoc_k.
         destruct (assoc (cb_id c) (calls s)); reflexivity.
     Qed.
 
@@ -385,7 +432,7 @@ Section Ren.
       unfold complete_cb. rewrite k_nth_cb. destruct (nth_error (cbs s) i) as [c|]; cbn [option_map]; [|reflexivity].
       unfold embkp. cbn [fst snd]. f_equal.
       - apply state_ext; try reflexivity.
-        + apply (assoc_del_ren (Nat.add nc)).
+        + apply assoc_del_k.
         + apply k_upd_cbs. reflexivity.
       - change (cb_ret (ren_cb c)) with (cb_ret c). destruct (cb_ret c); reflexivity.
     Qed.
@@ -409,7 +456,7 @@ Section Ren.
       - assert (Eid : fix_id (j_id (ren_msg m)) = ren (fix_id (j_id m))).
         { unfold ren_msg, reid. rewrite R. cbn [j_id]. apply fix_id_ren. }
         destruct (reid_fields ren m) as (Fm & Fe & Fr & Fh). fold ren_msg in Fm, Fe, Fr, Fh.
-        rewrite Eid, Fm, Fe, Fr, Fh. change (calls (embk s)) with (map sh_call (calls s)). unfold sh_call. rewrite assoc_ren.
+        rewrite Eid, Fm, Fe, Fr, Fh. change (calls (embk s)) with (map sh_call (calls s) ++ ocl). rewrite assoc_k.
         destruct (assoc (fix_id (j_id m)) (calls s)) as [i|]; cbn [option_map].
         + rewrite k_complete_cb.
           match goal with |- context [complete_cb i ?v s] =>
@@ -544,8 +591,7 @@ Section Ren.
         + change (ended (embk s1)) with (ended s1).
           cbn [option_map]. unfold embkp. cbn [fst snd map ren_obs]. f_equal. f_equal.
           apply state_ext; try reflexivity.
-          * cbn. rewrite app_length, map_length. f_equal.
-            apply (assoc_del_ren (Nat.add nc)).
+          * cbn. rewrite app_length, map_length. f_equal. apply assoc_del_k.
           * cbn. lia.
           * cbn. rewrite map_app, app_assoc. f_equal. cbn [map]. f_equal.
             destruct (find (fun e => fst e =? n) (ended s)) as [[? ?]|]; reflexivity.
@@ -556,8 +602,8 @@ Section Ren.
                      embk (s <| cbs ::= upd_nth c (fun c0 => c0 <| cb_watch := WDone |>) |>)).
         { apply state_ext; try reflexivity. apply k_upd_cbs. reflexivity. }
         rewrite E1. set (s1 := s <| cbs ::= upd_nth c (fun c0 => c0 <| cb_watch := WDone |>) |>).
-        change (calls (embk s1)) with (map sh_call (calls s1)). change (cb_id (ren_cb cb0)) with (ren (cb_id cb0)).
-        unfold sh_call. rewrite assoc_ren.
+        change (calls (embk s1)) with (map sh_call (calls s1) ++ ocl). change (cb_id (ren_cb cb0)) with (ren (cb_id cb0)).
+        rewrite assoc_k.
         destruct (assoc (cb_id cb0) (calls s1)) as [j|]; cbn [option_map]; [|reflexivity].
         change (cb_slot (ren_cb cb0)) with (cb_slot cb0). destruct (cb_slot cb0); [reflexivity|].
         rewrite add_eqb_l. destruct (j =? c); [|reflexivity].
@@ -577,48 +623,143 @@ Section Ren.
     Qed.
   End K.
 
-  (** ** the watcher of an old record: a silent step *)
-  Definition old_ok (ocb : list cb) : Prop := forall c, In c ocb -> old_id (cb_id c) = true.
-  Definition mark_done (i : nat) (ocb : list cb) : list cb := upd_nth i (fun c => c <| cb_watch := WDone |>) ocb.
+  (** ** the old records, and the release of the watcher of one of them *)
+  (* ocb: the callback records of earlier incarnations; ocl: the registrations among them that are still pending (the
+     Callback has not returned yet: its context was cancelled by Stop and its watcher has not run yet) *)
+  Definition old_ok (ocb : list cb) (ocl : list (bytes * nat)) : Prop :=
+    (forall c, In c ocb -> old_id (cb_id c) = true) /\
+    (forall p, In p ocl -> old_id (fst p) = true) /\
+    (forall c, In c ocb -> assoc (cb_id c) ocl <> None -> cb_cancelled c = true /\ cb_watch c <> WBlocked).
 
-  Lemma old_ok_mark i ocb : old_ok ocb -> old_ok (mark_done i ocb).
-  Proof.
-    intros H c Ic. apply in_upd_nth in Ic as [Ic|(x & N & ->)]; [apply H; exact Ic|].
-    apply (H x). eapply nth_error_In; eauto.
-  Qed.
+  Definition mark_done (i : nat) (ocb : list cb) : list cb := upd_nth i (fun c => c <| cb_watch := WDone |>) ocb.
+  Definition cancel_code (c : cb) : Z * bytes :=
+    match cb_ctx c with Some WDeadline => (DeadlineExceeded, s_ctx_deadline) | _ => (Cancelled, s_ctx_canceled) end.
+
+  (* what the release of the watcher of old record i does to the old records: it is marked done; if its callback is
+     still registered and unanswered, the callback is completed with the cancellation, which returns to its caller *)
+  Definition old_release (i : nat) (ocb : list cb) (ocl : list (bytes * nat)) :
+    option (list cb * list (bytes * nat) * list obs) :=
+    match nth_error ocb i with
+    | Some c =>
+        match cb_watch c with
+        | WParked =>
+            match assoc (cb_id c) ocl, cb_slot c with
+            | Some j, None =>
+                if j =? i then
+                  Some (upd_nth i (fun c0 => wake_watch (c0 <| cb_slot := Some (CErr (fst (cancel_code c)) (snd (cancel_code c))) |>))
+                          (mark_done i ocb),
+                        assoc_del (cb_id c) ocl,
+                        if cb_ret c then [] else [ORet (cb_op c) (ctx_res (fst (cancel_code c)) (snd (cancel_code c)))])
+                else Some (mark_done i ocb, ocl, [])
+            | _, _ => Some (mark_done i ocb, ocl, [])
+            end
+        | _ => None
+        end
+    | None => None
+    end.
 
   Lemma mark_done_length i ocb : length (mark_done i ocb) = length ocb.
   Proof. apply upd_nth_length. Qed.
 
-  Lemma mark_done_ops i ocb : map cb_op (mark_done i ocb) = map cb_op ocb.
-  Proof. apply map_upd_nth_same. reflexivity. Qed.
-
-  Lemma embk_old_watch_raw ocb s i c : old_ok ocb -> nth_error ocb i = Some c ->
-    step_raw (embk ocb s) (LRelCbWatch i) =
-    match cb_watch c with WParked => Some (embk (mark_done i ocb) s, []) | _ => None end.
+  Lemma old_ok_upd ocb ocl ocl' i (F : cb -> cb) : old_ok ocb ocl ->
+    (forall c, cb_id (F c) = cb_id c /\ cb_watch (F c) <> WBlocked /\ (cb_cancelled c = true -> cb_cancelled (F c) = true)) ->
+    (forall p, In p ocl' -> In p ocl) -> (forall k, assoc k ocl' <> None -> assoc k ocl <> None) ->
+    old_ok (upd_nth i F ocb) ocl'.
   Proof.
-    intros Ho N. cbn [step_raw].
-    assert (N' : nth_error (cbs (embk ocb s)) i = Some c) by (cbn [cbs embk]; apply nth_error_app_old; exact N).
+    intros (H1 & H2 & H3) HF Sub SubA. split; [|split].
+    - intros c Ic. apply in_upd_nth in Ic as [Ic|(x & N & ->)]; [apply H1; exact Ic|].
+      destruct (HF x) as (E & _). rewrite E. apply H1. eapply nth_error_In; eauto.
+    - intros q Iq. apply H2, Sub, Iq.
+    - intros c Ic A. apply in_upd_nth in Ic as [Ic|(x & N & ->)]; [apply H3; auto|].
+      destruct (HF x) as (E & W & Cc). rewrite E in A. split; [|exact W].
+      apply Cc. apply (H3 x); [eapply nth_error_In; eauto|apply SubA; exact A].
+  Qed.
+
+  Lemma old_release_ok i ocb ocl ocb' ocl' os : old_ok ocb ocl -> old_release i ocb ocl = Some (ocb', ocl', os) ->
+    old_ok ocb' ocl' /\ length ocb' = length ocb /\ map cb_op ocb' = map cb_op ocb /\ map cb_id ocb' = map cb_id ocb /\
+    (forall p, In p ocl' -> In p ocl) /\ map ren_obs os = os /\
+    (os = [] \/ (ocl <> [] /\ exists n r, In n (map cb_op ocb) /\ os = [ORet n r])).
+  Proof.
+    intros Ho H. unfold old_release in H. destruct (nth_error ocb i) as [c|] eqn:N; [|discriminate].
+    destruct (cb_watch c); try discriminate.
+    assert (Mk : old_ok (mark_done i ocb) ocl /\ length (mark_done i ocb) = length ocb /\
+                 map cb_op (mark_done i ocb) = map cb_op ocb /\ map cb_id (mark_done i ocb) = map cb_id ocb).
+    { split; [|split; [|split]].
+      - apply (old_ok_upd ocb ocl ocl i _ Ho); auto. intros c0. cbn. repeat split; auto. discriminate.
+      - apply mark_done_length.
+      - apply map_upd_nth_same. reflexivity.
+      - apply map_upd_nth_same. reflexivity. }
+    destruct Mk as (M1 & M2 & M3 & M4).
+    assert (Silent : (mark_done i ocb, ocl, @nil obs) = (ocb', ocl', os) ->
+      old_ok ocb' ocl' /\ length ocb' = length ocb /\ map cb_op ocb' = map cb_op ocb /\ map cb_id ocb' = map cb_id ocb /\
+      (forall p, In p ocl' -> In p ocl) /\ map ren_obs os = os /\
+      (os = [] \/ (ocl <> [] /\ exists n r, In n (map cb_op ocb) /\ os = [ORet n r]))).
+    { intros [= <- <- <-]. split; [exact M1|]. repeat split; auto. }
+    destruct (assoc (cb_id c) ocl) as [j|] eqn:A; [|apply Silent; congruence].
+    destruct (cb_slot c); [apply Silent; congruence|].
+    destruct (j =? i); [|apply Silent; congruence].
+    injection H as <- <- <-. split; [|split; [|split; [|split; [|split; [|split]]]]].
+    - unfold mark_done. rewrite upd_nth_upd_nth.
+      apply (old_ok_upd ocb ocl _ i _ Ho).
+      + intros c0. cbn. repeat split; auto. discriminate.
+      + intros p Ip. apply in_assoc_del in Ip as [Ip _]. exact Ip.
+      + intros k Ak. destruct (assoc k (assoc_del (cb_id c) ocl)) as [v|] eqn:E; [|congruence].
+        rewrite (assoc_assoc_del_some _ _ _ _ E). discriminate.
+    - rewrite upd_nth_length. exact M2.
+    - rewrite map_upd_nth_same by reflexivity. exact M3.
+    - rewrite map_upd_nth_same by reflexivity. exact M4.
+    - intros p Ip. apply in_assoc_del in Ip as [Ip _]. exact Ip.
+    - destruct (cb_ret c); reflexivity.
+    - destruct (cb_ret c); [left; reflexivity|right]. split; [intros E; rewrite E in A; discriminate|].
+      eexists _, _. split; [|reflexivity]. apply in_map. eapply nth_error_In; eauto.
+  Qed.
+
+  Lemma embk_calls_len ocb ocb' ocl s : length ocb' = length ocb ->
+    map (sh_call ocb') (calls s) ++ ocl = map (sh_call ocb) (calls s) ++ ocl.
+  Proof. intros L. unfold sh_call. rewrite L. reflexivity. Qed.
+
+  Lemma embk_old_watch_raw ocb ocl s i : old_ok ocb ocl -> i < length ocb ->
+    step_raw (embk ocb ocl s) (LRelCbWatch i) =
+    match old_release i ocb ocl with Some (ocb', ocl', os) => Some (embk ocb' ocl' s, os) | None => None end.
+  Proof.
+    intros (H1 & H2 & H3) L. cbn [step_raw]. unfold old_release.
+    destruct (nth_error ocb i) as [c|] eqn:N; [|apply nth_error_None in N; lia].
+    assert (N' : nth_error (cbs (embk ocb ocl s)) i = Some c) by (cbn [cbs embk]; apply nth_error_app_old; exact N).
     rewrite N'. destruct (cb_watch c); try reflexivity.
-    set (s1 := embk ocb s <| cbs ::= upd_nth i (fun c0 => c0 <| cb_watch := WDone |>) |>).
-    assert (A : assoc (cb_id c) (calls s1) = None).
-    { apply (assoc_old (Nat.add (length ocb))). apply Ho. eapply nth_error_In; eauto. }
-    rewrite A. f_equal. f_equal. unfold s1. apply state_ext; try reflexivity.
-    - cbn. unfold sh_call. rewrite mark_done_length. reflexivity.
-    - cbn. apply upd_nth_app_l. eapply nth_error_some_lt; eauto.
+    set (s1 := embk ocb ocl s <| cbs ::= upd_nth i (fun c0 => c0 <| cb_watch := WDone |>) |>).
+    assert (Oc : old_id (cb_id c) = true) by (apply H1; eapply nth_error_In; eauto).
+    change (calls s1) with (map (sh_call ocb) (calls s) ++ ocl). rewrite (assoc_old_k ocb ocl _ _ Oc).
+    assert (Silent : Some (s1, @nil obs) = Some (embk (mark_done i ocb) ocl s, [])).
+    { f_equal. f_equal. unfold s1. apply state_ext; try reflexivity.
+      - cbn. apply embk_calls_len. symmetry. apply mark_done_length.
+      - cbn. apply upd_nth_app_l. exact L. }
+    destruct (assoc (cb_id c) ocl) as [j|]; [|exact Silent]. destruct (cb_slot c); [exact Silent|].
+    destruct (j =? i); [|exact Silent].
+    unfold cancel_code. destruct (match cb_ctx c with Some WDeadline => _ | _ => _ end) as [code msg]. cbn [fst snd].
+    unfold complete_cb.
+    assert (N1 : nth_error (cbs s1) i = Some (c <| cb_watch := WDone |>)).
+    { unfold s1. cbn [cbs embk set]. cbn. rewrite (upd_nth_app_l _ _ _ _ L).
+      apply nth_error_app_old. apply nth_error_upd_nth_eq. exact N. }
+    rewrite N1. f_equal. f_equal. apply state_ext; try reflexivity.
+    - cbn. rewrite (assoc_del_old_k ocb ocl _ _ Oc). unfold sh_call. rewrite upd_nth_length, mark_done_length. reflexivity.
+    - cbn. rewrite (upd_nth_app_l _ _ _ _ L). apply upd_nth_app_l. unfold mark_done. rewrite upd_nth_length. exact L.
   Qed.
 
-  Lemma embk_old_watch ocb s i c : old_ok ocb -> nth_error ocb i = Some c -> settle1 s = None ->
-    step (embk ocb s) (LRelCbWatch i) =
-    match crash s, cb_watch c with None, WParked => Some (embk (mark_done i ocb) s, []) | _, _ => None end.
+  Lemma embk_old_watch ocb ocl s i : old_ok ocb ocl -> i < length ocb -> settle1 s = None ->
+    step (embk ocb ocl s) (LRelCbWatch i) =
+    match crash s, old_release i ocb ocl with
+    | None, Some (ocb', ocl', os) => Some (embk ocb' ocl' s, os)
+    | _, _ => None
+    end.
   Proof.
-    intros Ho N St. unfold step. change (crash (embk ocb s)) with (crash s). destruct (crash s) eqn:Cr; [reflexivity|].
-    rewrite (embk_old_watch_raw ocb s i c Ho N). destruct (cb_watch c); try reflexivity.
-    change (crash (embk (mark_done i ocb) s)) with (crash s). rewrite Cr.
-    rewrite k_settle_fuel. pose proof (k_settle (mark_done i ocb) (settle_fuel s) s []) as K. cbn [map] in K. rewrite K.
-    rewrite (SrvC09b.settle_none _ s [] St). reflexivity.
+    intros Ho L St. unfold step. change (crash (embk ocb ocl s)) with (crash s). destruct (crash s) eqn:Cr; [reflexivity|].
+    rewrite (embk_old_watch_raw ocb ocl s i Ho L).
+    destruct (old_release i ocb ocl) as [[[ocb' ocl'] os]|] eqn:E; [|reflexivity].
+    destruct (old_release_ok _ _ _ _ _ _ Ho E) as (_ & _ & _ & _ & _ & Eo & _).
+    change (crash (embk ocb' ocl' s)) with (crash s). rewrite Cr.
+    rewrite k_settle_fuel. rewrite <- Eo at 1. rewrite k_settle.
+    rewrite (SrvC09b.settle_none _ s os St). unfold embkp. cbn [fst snd]. rewrite Eo. reflexivity.
   Qed.
-
 End Ren.
 
 (** * Invariants of the run of a server with AllowPush, fed shaped records *)
@@ -841,7 +982,7 @@ Section EmbC.
   Hypothesis Hot : forall t, In t ot -> finished t = true /\ t_unit t < length ou.
   Hypothesis Hou : forall u, In u ou -> u_st u = UFinished.
 
-  Definition embc (ocb : list cb) (x : state) : state := emb ot ou ds dc (embk dk ocb x).
+  Definition embc (ocb : list cb) (ocl : list (bytes * nat)) (x : state) : state := emb ot ou ds dc (embk dk ocb ocl x).
   Definition rs_labelc (nc : nat) (l : label) : label :=
     match l with
     | LFeed f => LFeed (ren_feed dk f)
@@ -865,25 +1006,25 @@ Section EmbC.
     rewrite <- H. clear H. induction ocb as [|c r IH]; cbn [forallb map]; auto. rewrite IH. reflexivity.
   Qed.
 
-  Definition embcp (ocb : list cb) (r : state * list obs) : state * list obs :=
-    (embc ocb (fst r), map (ren_obs dk) (snd r)).
+  Definition embcp (ocb : list cb) (ocl : list (bytes * nat)) (r : state * list obs) : state * list obs :=
+    (embc ocb ocl (fst r), map (ren_obs dk) (snd r)).
 
-  Theorem embc_step ocb x l : old_ok dk ocb -> pinv x -> lab_ok (map cb_op ocb) l = true ->
-    step (embc ocb x) (rs_labelc (length ocb) l) = option_map (embcp ocb) (step x l).
+  Theorem embc_step ocb ocl x l : old_ok dk ocb ocl -> pinv x -> lab_ok (map cb_op ocb) l = true ->
+    step (embc ocb ocl x) (rs_labelc (length ocb) l) = option_map (embcp ocb ocl) (step x l).
   Proof.
-    intros Ho (Cp & Ci & _ & Rs) Lo. destruct (lab_ok_parts ocb l Lo) as [Of _].
+    intros (H1 & H2 & H3) (Cp & Ci & _ & Rs) Lo. destruct (lab_ok_parts ocb l Lo) as [Of _].
     rewrite rs_labelc_eq. unfold embc. rewrite (emb_step ot ou ds dc Hot Hou).
-    rewrite (k_step dk ocb Ho x l Cp Ci Rs Of). destruct (step x l) as [[x' os]|]; reflexivity.
+    rewrite (k_step dk ocb ocl H1 H2 H3 x l Cp Ci Rs Of). destruct (step x l) as [[x' os]|]; reflexivity.
   Qed.
 
   (** ** runs, forward *)
-  Theorem embc_run_fwd ocb : old_ok dk ocb -> forall tr x x' oss, pinv x ->
+  Theorem embc_run_fwd ocb ocl : old_ok dk ocb ocl -> forall tr x x' oss, pinv x ->
     forallb (lab_ok (map cb_op ocb)) tr = true -> run x tr = Some (x', oss) ->
-    run (embc ocb x) (map (rs_labelc (length ocb)) tr) = Some (embc ocb x', map (map (ren_obs dk)) oss).
+    run (embc ocb ocl x) (map (rs_labelc (length ocb)) tr) = Some (embc ocb ocl x', map (map (ren_obs dk)) oss).
   Proof.
     intros Ho. induction tr as [|l r IH]; cbn [run map forallb]; intros x x' oss P L H.
     - injection H as <- <-. reflexivity.
-    - apply andb_true_iff in L as [L1 L2]. rewrite (embc_step ocb x l Ho P L1).
+    - apply andb_true_iff in L as [L1 L2]. rewrite (embc_step ocb ocl x l Ho P L1).
       destruct (step x l) as [[x1 os]|] eqn:E; [|discriminate]. cbn [option_map embcp fst snd].
       destruct (run x1 r) as [[x2 oss2]|] eqn:E2; [|discriminate]. injection H as <- <-.
       assert (P1 : pinv x1) by (eapply step_pinv; eauto; apply (lab_ok_parts ocb l L1)).
@@ -915,96 +1056,114 @@ Section EmbC.
     - split; auto. f_equal. apply Nat.ltb_ge in W. lia.
   Qed.
 
-  (* the fresh run that corresponds to a restarted run: silent steps of old watchers removed, labels un-shifted and
-     un-renamed; its windows, renamed, interleaved with the empty windows of the silent steps *)
+  (* the fresh run that corresponds to a restarted run: the releases of old watchers removed, labels un-shifted and
+     un-renamed; the windows of the restarted run, split into those of the fresh run and those of the old watchers *)
   Fixpoint strip (nc : nat) (tr' : list label) : list label :=
     match tr' with
     | [] => []
     | l' :: r => if old_watch nc l' then strip nc r else unlabelc nc l' :: strip nc r
     end.
-  Fixpoint weave (nc : nat) (tr' : list label) (ossf : list (list obs)) : list (list obs) :=
-    match tr' with
-    | [] => []
-    | l' :: r => if old_watch nc l' then [] :: weave nc r ossf
-                 else match ossf with o :: q => map (ren_obs dk) o :: weave nc r q | [] => [] end
+  Fixpoint fresh_windows (nc : nat) (tr' : list label) (oss : list (list obs)) : list (list obs) :=
+    match tr', oss with
+    | l' :: r, o :: q => if old_watch nc l' then fresh_windows nc r q else o :: fresh_windows nc r q
+    | _, _ => []
     end.
+  Fixpoint old_windows (nc : nat) (tr' : list label) (oss : list (list obs)) : list (list obs) :=
+    match tr', oss with
+    | l' :: r, o :: q => if old_watch nc l' then o :: old_windows nc r q else old_windows nc r q
+    | _, _ => []
+    end.
+  (* the window of an old watcher: silent, or (only if some old callback is still registered) the return of an old
+     Callback to its caller *)
+  Definition old_window (oops : list nat) (ocl : list (bytes * nat)) (w : list obs) : Prop :=
+    w = [] \/ (ocl <> [] /\ exists n r, In n oops /\ w = [ORet n r]).
 
-  Lemma concat_weave nc : forall tr' ossf, length ossf = length (strip nc tr') ->
-    concat (weave nc tr' ossf) = map (ren_obs dk) (concat ossf).
+  Lemma old_window_mono oops ocl ocl' w : (forall p, In p ocl' -> In p ocl) -> old_window oops ocl' w -> old_window oops ocl w.
   Proof.
-    induction tr' as [|l' r IH]; cbn [strip weave]; intros ossf L.
-    - destruct ossf; [reflexivity|discriminate].
-    - destruct (old_watch nc l'); [cbn [concat app]; apply IH; exact L|].
-      destruct ossf as [|o q]; [discriminate|]. cbn [concat]. rewrite map_app. f_equal. apply IH.
-      cbn in L. lia.
+    intros Sub [E|(Ne & X)]; [left; exact E|right]. split; [|exact X].
+    intros Z. destruct ocl' as [|p r]; [congruence|]. specialize (Sub p (or_introl eq_refl)). rewrite Z in Sub. destruct Sub.
   Qed.
 
-  Theorem embc_run_bwd : forall tr' ocb x sr oss, old_ok dk ocb -> pinv x -> (crash x = None -> settle1 x = None) ->
-    forallb (lab_ok' (map cb_op ocb)) tr' = true -> run (embc ocb x) tr' = Some (sr, oss) ->
-    exists ocb' x' ossf,
-      run x (strip (length ocb) tr') = Some (x', ossf) /\ sr = embc ocb' x' /\ oss = weave (length ocb) tr' ossf /\
+  Theorem embc_run_bwd : forall tr' ocb ocl x sr oss, old_ok dk ocb ocl -> pinv x ->
+    (crash x = None -> settle1 x = None) ->
+    forallb (lab_ok' (map cb_op ocb)) tr' = true -> run (embc ocb ocl x) tr' = Some (sr, oss) ->
+    exists ocb' ocl' x' ossf,
+      run x (strip (length ocb) tr') = Some (x', ossf) /\ sr = embc ocb' ocl' x' /\
+      fresh_windows (length ocb) tr' oss = map (map (ren_obs dk)) ossf /\
+      Forall (old_window (map cb_op ocb) ocl) (old_windows (length ocb) tr' oss) /\
       forallb (lab_ok (map cb_op ocb)) (strip (length ocb) tr') = true /\
-      old_ok dk ocb' /\ length ocb' = length ocb /\ map cb_op ocb' = map cb_op ocb /\ map cb_id ocb' = map cb_id ocb.
+      old_ok dk ocb' ocl' /\ length ocb' = length ocb /\ map cb_op ocb' = map cb_op ocb /\
+      map cb_id ocb' = map cb_id ocb /\ (forall p, In p ocl' -> In p ocl).
   Proof.
-    induction tr' as [|l' r IH]; cbn [run strip weave forallb]; intros ocb x sr oss Ho P St L H.
-    - injection H as <- <-. exists ocb, x, []. repeat split; auto.
+    induction tr' as [|l' r IH]; cbn [run strip fresh_windows old_windows forallb]; intros ocb ocl x sr oss Ho P St L H.
+    - injection H as <- <-. exists ocb, ocl, x, []. split; [reflexivity|]. split; [reflexivity|]. split; [reflexivity|].
+      split; [constructor|]. split; [reflexivity|]. split; [exact Ho|]. repeat split; auto.
     - apply andb_true_iff in L as [L1 L2].
-      destruct (step (embc ocb x) l') as [[s1 os]|] eqn:E; [|discriminate].
+      destruct (step (embc ocb ocl x) l') as [[s1 os]|] eqn:E; [|discriminate].
       destruct (run s1 r) as [[s2 oss2]|] eqn:E2; [|discriminate]. injection H as <- <-.
       destruct (old_label ot ou l') eqn:O.
       { unfold embc in E. rewrite (emb_old_label_disabled ot ou ds dc Hot Hou _ l' O) in E. discriminate. }
       destruct (old_watch (length ocb) l') eqn:W.
       + (* the watcher of an old record *)
         destruct l'; try discriminate W. cbn [old_watch] in W. apply Nat.ltb_lt in W.
-        destruct (nth_error ocb c) as [c0|] eqn:N; [|apply nth_error_None in N; lia].
         unfold embc in E. change (LRelCbWatch c) with (sh_label ot ou (LRelCbWatch c)) in E.
         rewrite (emb_step ot ou ds dc Hot Hou) in E.
         destruct (crash x) eqn:Cr.
-        { unfold step in E. change (crash (embk dk ocb x)) with (crash x) in E. rewrite Cr in E. discriminate. }
-        rewrite (embk_old_watch dk ocb x c c0 Ho N (St eq_refl)), Cr in E.
-        destruct (cb_watch c0); try discriminate. cbn [option_map embp fst snd] in E. injection E as <- <-.
-        fold (embc (mark_done c ocb) x) in E2.
-        destruct (IH (mark_done c ocb) x s2 oss2) as (ocb' & x' & ossf & R1 & R2 & R3 & R4 & R5 & R6 & R7 & R8); auto.
-        { apply old_ok_mark; auto. }
-        { rewrite mark_done_ops. exact L2. }
-        rewrite mark_done_length, mark_done_ops in *.
-        exists ocb', x', ossf. repeat split; auto; try congruence.
-        rewrite R8. unfold mark_done. apply map_upd_nth_same. reflexivity.
+        { unfold step in E. change (crash (embk dk ocb ocl x)) with (crash x) in E. rewrite Cr in E. discriminate. }
+        rewrite (embk_old_watch dk ocb ocl x c Ho W (St eq_refl)), Cr in E.
+        destruct (old_release c ocb ocl) as [[[ocb1 ocl1] os1]|] eqn:Er; [|discriminate].
+        cbn [option_map embp fst snd] in E. injection E as <- <-.
+        destruct (old_release_ok dk _ _ _ _ _ _ Ho Er) as (Ho1 & Ln & Op & Id & Sub & _ & Wn).
+        fold (embc ocb1 ocl1 x) in E2. rewrite <- Op in L2.
+        destruct (IH ocb1 ocl1 x s2 oss2 Ho1 P (fun _ => St eq_refl) L2 E2)
+          as (ocb' & ocl' & x' & ossf & R1 & R2 & R3 & R4 & R5 & R6 & R7 & R8 & R9 & R10).
+        rewrite Ln, Op in *.
+        exists ocb', ocl', x', ossf. split; [exact R1|]. split; [exact R2|]. split; [exact R3|]. split.
+        { constructor; [exact Wn|]. eapply Forall_impl; [|exact R4]. intros w. apply old_window_mono. exact Sub. }
+        split; [exact R5|]. split; [exact R6|]. split; [exact R7|]. split; [exact R8|]. split; [congruence|].
+        intros p Ip. apply Sub, R10, Ip.
       + (* a label of the fresh run *)
         destruct (relabel (length ocb) (map cb_op ocb) l' O W L1) as [Rl Lk].
-        rewrite <- Rl in E. rewrite (embc_step ocb x _ Ho P Lk) in E.
+        rewrite <- Rl in E. rewrite (embc_step ocb ocl x _ Ho P Lk) in E.
         destruct (step x (unlabelc (length ocb) l')) as [[x1 os0]|] eqn:E0; [|discriminate].
         cbn [option_map embcp fst snd] in E. injection E as <- <-.
         assert (P1 : pinv x1) by (eapply step_pinv; eauto; apply (lab_ok_parts ocb _ Lk)).
-        destruct (IH ocb x1 s2 oss2 Ho P1 (step_settled _ _ _ _ E0) L2 E2) as
-          (ocb' & x' & ossf & R1 & R2 & R3 & R4 & R5 & R6 & R7 & R8).
-        exists ocb', x', (os0 :: ossf). cbn [run forallb]. rewrite E0, R1, Lk, R4. repeat split; auto. rewrite R3. reflexivity.
+        destruct (IH ocb ocl x1 s2 oss2 Ho P1 (step_settled _ _ _ _ E0) L2 E2) as
+          (ocb' & ocl' & x' & ossf & R1 & R2 & R3 & R4 & R5 & R6 & R7 & R8 & R9 & R10).
+        exists ocb', ocl', x', (os0 :: ossf). cbn [run forallb map]. rewrite E0, R1, Lk, R5, R3.
+        split; [reflexivity|]. split; [exact R2|]. split; [reflexivity|]. split; [exact R4|]. split; [reflexivity|].
+        split; [exact R6|]. repeat split; auto.
   Qed.
 
   (* the watcher of an old record, in the full embedding *)
-  Theorem embc_old_watch ocb x i c0 : old_ok dk ocb -> nth_error ocb i = Some c0 -> settle1 x = None ->
-    step (embc ocb x) (LRelCbWatch i) =
-    match crash x, cb_watch c0 with None, WParked => Some (embc (mark_done i ocb) x, []) | _, _ => None end.
+  Theorem embc_old_watch ocb ocl x i : old_ok dk ocb ocl -> i < length ocb -> settle1 x = None ->
+    step (embc ocb ocl x) (LRelCbWatch i) =
+    match crash x, old_release i ocb ocl with
+    | None, Some (ocb', ocl', os) => Some (embc ocb' ocl' x, os)
+    | _, _ => None
+    end.
   Proof.
-    intros Ho N St. unfold embc. change (LRelCbWatch i) with (sh_label ot ou (LRelCbWatch i)).
-    rewrite (emb_step ot ou ds dc Hot Hou). rewrite (embk_old_watch dk ocb x i c0 Ho N St).
-    destruct (crash x), (cb_watch c0); reflexivity.
+    intros Ho L St. unfold embc. change (LRelCbWatch i) with (sh_label ot ou (LRelCbWatch i)).
+    rewrite (emb_step ot ou ds dc Hot Hou). rewrite (embk_old_watch dk ocb ocl x i Ho L St).
+    destruct (crash x); [reflexivity|]. destruct (old_release i ocb ocl) as [[[ocb' ocl'] os]|]; reflexivity.
   Qed.
 
-  Lemma embc_old_label_disabled ocb x l' : old_label ot ou l' = true -> step (embc ocb x) l' = None.
+  Lemma embc_old_label_disabled ocb ocl x l' : old_label ot ou l' = true -> step (embc ocb ocl x) l' = None.
   Proof. intros O. unfold embc. apply (emb_old_label_disabled ot ou ds dc Hot Hou). exact O. Qed.
 
-  (* a reply bearing the id of an old callback is unsolicited in the restarted run: a late reply in the sense of
-     C09.5 (SrvC09.late_reply), skipped by the reader like any reply with an unknown id *)
-  Theorem embc_old_reply_late ocb x m : old_ok dk ocb -> c_push x = true -> is_req_or_notif m = false ->
+  (* a reply bearing the id of an old callback that has returned is unsolicited in the restarted run: a late reply in
+     the sense of C09.5 (SrvC09.late_reply), skipped by the reader like any reply with an unknown id *)
+  Theorem embc_old_reply_late ocb ocl x m : old_ok dk ocb ocl -> c_push x = true -> is_req_or_notif m = false ->
     j_method m = [] -> has_reply_fields m = true -> old_id dk (fix_id (j_id m)) = true ->
-    late_reply (embc ocb x) m /\
-    forall r keep acc, filter_batch (m :: r) (embc ocb x) keep acc = filter_batch r (embc ocb x) keep acc.
+    assoc (fix_id (j_id m)) ocl = None ->
+    late_reply (embc ocb ocl x) m /\
+    forall r keep acc, filter_batch (m :: r) (embc ocb ocl x) keep acc = filter_batch r (embc ocb ocl x) keep acc.
   Proof.
-    intros Ho Cp Q M F O.
-    assert (L : late_reply (embc ocb x) m).
-    { unfold late_reply. repeat split; auto. change (calls (embc ocb x)) with (map (sh_call dk ocb) (calls x)).
-      apply (assoc_old dk (Nat.add (length ocb))). exact O. }
+    intros Ho Cp Q M F O A.
+    assert (L : late_reply (embc ocb ocl x) m).
+    { unfold late_reply. repeat split; auto.
+      change (calls (embc ocb ocl x)) with (map (sh_call dk ocb) (calls x) ++ ocl).
+      rewrite (assoc_old_k dk ocb ocl _ _ O). exact A. }
     split; [exact L|]. intros r keep acc. apply late_reply_skipped. exact L.
   Qed.
 End EmbC.
@@ -1109,24 +1268,45 @@ Proof.
   - eapply tight_idv; [apply pv_idv; eapply settle1_pv; eauto|exact IH].
 Qed.
 
-Lemma tight_old_ok s : tight s -> old_ok (call_id s - 1) (cbs s).
+Lemma NoDup_map_inj {A B} (f : A -> B) : forall l a b, NoDup (map f l) -> In a l -> In b l -> f a = f b -> a = b.
 Proof.
-  intros [T1 T2] c Ic. destruct (T2 (cb_id c)) as (j & L & E); [apply in_map; exact Ic|].
-  unfold old_id. rewrite E, idnum_dec. destruct j as [|j']; [lia|]. apply Nat.leb_le. lia.
+  induction l as [|x r IH]; cbn [map In]; intros a b N Ia Ib E; [destruct Ia|].
+  inversion N as [|? ? Nx Nr]; subst.
+  destruct Ia as [<-|Ia], Ib as [<-|Ib]; auto.
+  - exfalso. apply Nx. rewrite E. apply in_map. exact Ib.
+  - exfalso. apply Nx. rewrite <- E. apply in_map. exact Ia.
+Qed.
+
+(* the callback records of a stopped reachable state are "old records" for its successor incarnations: their ids are
+   the numerals of 1 .. call_id - 1, and those still registered are cancelled, their watcher parked *)
+Lemma reach_old_ok c s : reach c s -> running s = false -> old_ok (call_id s - 1) (cbs s) (calls s).
+Proof.
+  intros R Rn. destruct (reachf_tight c s (reach_reachf _ _ R)) as [T1 T2]. pose proof (inv_push_reach c s R) as Ip.
+  assert (H1 : forall c0, In c0 (cbs s) -> old_id (call_id s - 1) (cb_id c0) = true).
+  { intros c0 Ic. destruct (T2 (cb_id c0)) as (j & L & E); [apply in_map; exact Ic|].
+    unfold old_id. rewrite E, idnum_dec. destruct j as [|j']; [lia|]. apply Nat.leb_le. lia. }
+  split; [exact H1|]. split.
+  - intros [k i] Ip0. destruct (ip_reg _ Ip k i Ip0) as (c0 & N & E & _). cbn [fst]. rewrite <- E. apply H1.
+    eapply nth_error_In; eauto.
+  - intros c0 Ic A. destruct (assoc (cb_id c0) (calls s)) as [i|] eqn:As; [|congruence].
+    apply assoc_in in As. destruct (ip_reg _ Ip _ _ As) as (c1 & N & E & (_ & _ & Ow & _ & Or)).
+    assert (c1 = c0).
+    { apply (NoDup_map_inj cb_id (cbs s)); auto; [apply (ip_cbnodup _ Ip)|eapply nth_error_In; eauto]. }
+    subst c1. rewrite (Or Rn) in Ow. split; [apply Or; exact Rn|]. rewrite Ow. discriminate.
 Qed.
 
 (** * C08.8 restart, with callback records in the history *)
-Definition rsc_emb (s : state) (ocb : list cb) (x : state) : state :=
-  embc (tasks s) (units s) (starts s) (closes s) (call_id s - 1) ocb x.
+Definition rsc_emb (s : state) (ocb : list cb) (ocl : list (bytes * nat)) (x : state) : state :=
+  embc (tasks s) (units s) (starts s) (closes s) (call_id s - 1) ocb ocl x.
 Definition rsc_label (s : state) (nc : nat) (l : label) : label := rs_labelc (tasks s) (units s) (call_id s - 1) nc l.
 
-Theorem restart_is_embc c s : reach c s -> wg s = 0 -> running s = false -> calls s = [] ->
-  started s = rsc_emb s (cbs s) (fresh_of c s).
+Theorem restart_is_embc c s : reach c s -> wg s = 0 -> running s = false ->
+  started s = rsc_emb s (cbs s) (calls s) (fresh_of c s).
 Proof.
-  intros R Z Rn Cl. rewrite (restart_fresh_eq c s R Z Rn).
+  intros R Z Rn. rewrite (restart_fresh_eq c s R Z Rn).
   destruct (reachf_tight c s (reach_reachf _ _ R)) as [T1 _].
   pose proof (idle_no_waits c s R Z) as W.
-  unfold rsc_emb, embc, fresh_of, pre_fresh, started. st_ext; rewrite ?Cl, ?W, ?app_nil_r; try reflexivity; try lia.
+  unfold rsc_emb, embc, fresh_of, pre_fresh, started. st_ext; rewrite ?W, ?app_nil_r; try reflexivity; try lia.
 Qed.
 
 Lemma shaped_ren_msg dk m : shaped_msg m = true -> shaped_msg (ren_msg dk m) = true.
@@ -1151,135 +1331,170 @@ Proof.
   rewrite (shaped_ren_feed dk f H), no_old_ren_feed. reflexivity.
 Qed.
 
-(* The restart simulation for a server with AllowPush, whatever Callbacks its earlier incarnations registered, as long
-   as none of them is still registered (calls s = []: every old callback has returned to its caller). *)
-Theorem restart_simulation_cb c s : reach c s -> cf_push c = true -> wg s = 0 -> running s = false -> calls s = [] ->
+Lemma fresh_windows_length ot ou dk nc : forall tr' oss, length oss = length tr' ->
+  length (fresh_windows nc tr' oss) = length (strip ot ou dk nc tr').
+Proof.
+  induction tr' as [|l' r IH]; intros [|o q] L; cbn [fresh_windows strip]; try reflexivity; try discriminate L.
+  cbn in L. destruct (old_watch nc l'); cbn [length]; rewrite IH; auto.
+Qed.
+
+(* The restart simulation for a server with AllowPush, whatever Callbacks its earlier incarnations registered. *)
+Theorem restart_simulation_cb c s : reach c s -> cf_push c = true -> wg s = 0 -> running s = false ->
   let dk := call_id s - 1 in
   let nc := length (cbs s) in
   let oops := map cb_op (cbs s) in
-  step s LStart = Some (started s, []) /\ reach c (fresh_of c s) /\ pinv (fresh_of c s) /\ old_ok dk (cbs s) /\
-  started s = rsc_emb s (cbs s) (fresh_of c s) /\
+  step s LStart = Some (started s, []) /\ reach c (fresh_of c s) /\ pinv (fresh_of c s) /\
+  old_ok dk (cbs s) (calls s) /\ started s = rsc_emb s (cbs s) (calls s) (fresh_of c s) /\
   (* one window, every label of the fresh server *)
-  (forall ocb x l, old_ok dk ocb -> pinv x -> lab_ok (map cb_op ocb) l = true ->
-     step (rsc_emb s ocb x) (rsc_label s (length ocb) l) =
-     match step x l with Some (x', os) => Some (rsc_emb s ocb x', map (ren_obs dk) os) | None => None end) /\
-  (* the labels of the history: disabled (tasks, units), silent or disabled (watchers of old callback records) *)
-  (forall ocb x l', old_label (tasks s) (units s) l' = true -> step (rsc_emb s ocb x) l' = None) /\
-  (forall ocb x i c0, old_ok dk ocb -> nth_error ocb i = Some c0 -> settle1 x = None ->
-     step (rsc_emb s ocb x) (LRelCbWatch i) =
-     match crash x, cb_watch c0 with None, WParked => Some (rsc_emb s (mark_done i ocb) x, []) | _, _ => None end) /\
+  (forall ocb ocl x l, old_ok dk ocb ocl -> pinv x -> lab_ok (map cb_op ocb) l = true ->
+     step (rsc_emb s ocb ocl x) (rsc_label s (length ocb) l) =
+     match step x l with Some (x', os) => Some (rsc_emb s ocb ocl x', map (ren_obs dk) os) | None => None end) /\
+  (* the labels of the history: disabled (tasks, units); the watcher of an old callback record: disabled, or a step
+     that changes the old records only *)
+  (forall ocb ocl x l', old_label (tasks s) (units s) l' = true -> step (rsc_emb s ocb ocl x) l' = None) /\
+  (forall ocb ocl x i, old_ok dk ocb ocl -> i < length ocb -> settle1 x = None ->
+     step (rsc_emb s ocb ocl x) (LRelCbWatch i) =
+     match crash x, old_release i ocb ocl with
+     | None, Some (ocb', ocl', os) => Some (rsc_emb s ocb' ocl' x, os)
+     | _, _ => None
+     end) /\
   (* every other label is a relabelled one *)
   (forall l', old_label (tasks s) (units s) l' = false -> old_watch nc l' = false -> lab_ok' dk oops l' = true ->
      exists l, l' = rsc_label s nc l /\ lab_ok oops l = true) /\
   (* whole runs, both directions *)
   (forall tr x oss, forallb (lab_ok oops) tr = true -> run (fresh_of c s) tr = Some (x, oss) ->
-     run (started s) (map (rsc_label s nc) tr) = Some (rsc_emb s (cbs s) x, map (map (ren_obs dk)) oss) /\
+     run (started s) (map (rsc_label s nc) tr) = Some (rsc_emb s (cbs s) (calls s) x, map (map (ren_obs dk)) oss) /\
      forallb (lab_ok' dk oops) (map (rsc_label s nc) tr) = true) /\
   (forall tr' sr oss, forallb (lab_ok' dk oops) tr' = true -> run (started s) tr' = Some (sr, oss) ->
-     exists ocb' x ossf,
+     exists ocb' ocl' x ossf,
        run (fresh_of c s) (strip (tasks s) (units s) dk nc tr') = Some (x, ossf) /\
        forallb (lab_ok oops) (strip (tasks s) (units s) dk nc tr') = true /\
-       sr = rsc_emb s ocb' x /\ oss = weave dk nc tr' ossf /\ concat oss = map (ren_obs dk) (concat ossf) /\
-       old_ok dk ocb' /\ length ocb' = nc /\ map cb_op ocb' = oops /\ map cb_id ocb' = map cb_id (cbs s)).
+       sr = rsc_emb s ocb' ocl' x /\
+       fresh_windows nc tr' oss = map (map (ren_obs dk)) ossf /\
+       Forall (old_window oops (calls s)) (old_windows nc tr' oss) /\
+       old_ok dk ocb' ocl' /\ length ocb' = nc /\ map cb_op ocb' = oops /\ map cb_id ocb' = map cb_id (cbs s) /\
+       (forall p, In p ocl' -> In p (calls s))).
 Proof.
-  intros R Cp Z Rn Cl. cbv zeta. destruct (restart_old_finished c s R Z) as [Hot Hou].
-  pose proof (restart_is_embc c s R Z Rn Cl) as E.
-  pose proof (tight_old_ok s (reachf_tight c s (reach_reachf _ _ R))) as Ho.
+  intros R Cp Z Rn. cbv zeta. destruct (restart_old_finished c s R Z) as [Hot Hou].
+  pose proof (restart_is_embc c s R Z Rn) as E.
+  pose proof (reach_old_ok c s R Rn) as Ho.
   pose proof (fresh_of_reachable c s R) as Rf.
   assert (Pf : pinv (fresh_of c s)).
   { unfold pinv, fed_ok, rd_shaped, fresh_of, pre_fresh, started. cbn. repeat split; auto; try (intros f []). }
   assert (Sf : crash (fresh_of c s) = None -> settle1 (fresh_of c s) = None) by (apply (reach_settled c); exact Rf).
   split; [apply (restart_fresh c s R Z Rn)|]. split; [exact Rf|]. split; [exact Pf|]. split; [exact Ho|].
   split; [exact E|]. split; [|split; [|split; [|split; [|split]]]].
-  - intros ocb x l Hk Px Lk. unfold rsc_emb, rsc_label.
-    rewrite (embc_step _ _ _ _ _ Hot Hou ocb x l Hk Px Lk). destruct (step x l) as [[x' os]|]; reflexivity.
-  - intros ocb x l' O. apply (embc_old_label_disabled _ _ _ _ _ Hot Hou). exact O.
-  - intros ocb x i c0 Hk N St. apply (embc_old_watch _ _ _ _ _ Hot Hou); auto.
+  - intros ocb ocl x l Hk Px Lk. unfold rsc_emb, rsc_label.
+    rewrite (embc_step _ _ _ _ _ Hot Hou ocb ocl x l Hk Px Lk). destruct (step x l) as [[x' os]|]; reflexivity.
+  - intros ocb ocl x l' O. apply (embc_old_label_disabled _ _ _ _ _ Hot Hou). exact O.
+  - intros ocb ocl x i Hk N St. apply (embc_old_watch _ _ _ _ _ Hot Hou); auto.
   - intros l' O W L. exists (unlabelc (tasks s) (units s) (call_id s - 1) (length (cbs s)) l').
     destruct (relabel (tasks s) (units s) (call_id s - 1) _ _ l' O W L) as [A B]. split; [symmetry; exact A|exact B].
   - intros tr x oss L H. split.
-    + rewrite E. apply (embc_run_fwd _ _ _ _ _ Hot Hou (cbs s) Ho); auto.
+    + rewrite E. apply (embc_run_fwd _ _ _ _ _ Hot Hou (cbs s) (calls s) Ho); auto.
     + clear H. induction tr as [|l r IH]; cbn [map forallb] in *; auto. apply andb_true_iff in L as [L1 L2].
-      unfold rsc_label at 1. rewrite (lab_ok'_relabel (tasks s) (units s) (call_id s - 1) (length (cbs s)) (map cb_op (cbs s)) l L1). apply IH. exact L2.
+      unfold rsc_label at 1.
+      rewrite (lab_ok'_relabel (tasks s) (units s) (call_id s - 1) (length (cbs s)) (map cb_op (cbs s)) l L1).
+      apply IH. exact L2.
   - intros tr' sr oss L H. rewrite E in H.
-    destruct (embc_run_bwd _ _ _ _ _ Hot Hou tr' (cbs s) _ sr oss Ho Pf Sf L H)
-      as (ocb' & x' & ossf & R1 & R2 & R3 & R4 & R5 & R6 & R7 & R8).
-    exists ocb', x', ossf. repeat split; auto. rewrite R3. apply (concat_weave (tasks s) (units s)).
-    apply run_length in R1. exact R1.
+    destruct (embc_run_bwd _ _ _ _ _ Hot Hou tr' (cbs s) (calls s) _ sr oss Ho Pf Sf L H)
+      as (ocb' & ocl' & x' & ossf & R1 & R2 & R3 & R4 & R5 & R6 & R7 & R8 & R9 & R10).
+    exists ocb', ocl', x', ossf. repeat (split; [assumption|]). assumption.
 Qed.
 
 (* hence every property of the observations of a fresh server (fed shaped records, not reusing the operation numbers
-   of old records for LCbCtxEnd) that is invariant under the renaming of callback ids holds of the restarted server
-   (fed shaped records that bear no id of an old callback), and conversely *)
+   of old records for LCbCtxEnd) that is invariant under the renaming of callback ids holds of the observations of the
+   restarted server (fed shaped records that bear no id of an old callback) other than the returns of old Callbacks
+   in the windows of old watchers, and conversely *)
 Corollary restart_trace_properties_cb c s (P : list obs -> Prop) : reach c s -> cf_push c = true -> wg s = 0 ->
-  running s = false -> calls s = [] ->
+  running s = false ->
   (forall os, P os <-> P (map (ren_obs (call_id s - 1)) os)) ->
   ((forall tr x oss, forallb (lab_ok (map cb_op (cbs s))) tr = true -> run (fresh_of c s) tr = Some (x, oss) ->
       P (concat oss)) <->
    (forall tr' sr oss, forallb (lab_ok' (call_id s - 1) (map cb_op (cbs s))) tr' = true ->
-      run (started s) tr' = Some (sr, oss) -> P (concat oss))).
+      run (started s) tr' = Some (sr, oss) -> P (concat (fresh_windows (length (cbs s)) tr' oss)))).
 Proof.
-  intros R Cp Z Rn Cl Inv.
-  destruct (restart_simulation_cb c s R Cp Z Rn Cl) as (_ & _ & _ & _ & _ & _ & _ & _ & _ & Fw & Bw). split.
-  - intros H tr' sr oss L Hr. destruct (Bw _ _ _ L Hr) as (ocb' & x & ossf & R1 & R2 & _ & _ & R5 & _).
-    rewrite R5. apply (proj1 (Inv (concat ossf))). eapply H; eauto.
-  - intros H tr x oss L Hr. destruct (Fw _ _ _ L Hr) as [F1 F2]. apply (proj2 (Inv (concat oss))). rewrite concat_map. eapply H; eauto.
+  intros R Cp Z Rn Inv.
+  destruct (restart_simulation_cb c s R Cp Z Rn) as (_ & _ & _ & _ & _ & _ & _ & _ & _ & Fw & Bw). split.
+  - intros H tr' sr oss L Hr. destruct (Bw _ _ _ L Hr) as (ocb' & ocl' & x & ossf & R1 & R2 & _ & R4 & _).
+    rewrite R4, <- concat_map. apply (proj1 (Inv (concat ossf))). eapply H; eauto.
+  - intros H tr x oss L Hr. destruct (Fw _ _ _ L Hr) as [F1 F2]. apply (proj2 (Inv (concat oss))).
+    rewrite concat_map. specialize (H _ _ _ F2 F1).
+    assert (Fr : forall tr0 oss0, length oss0 = length tr0 ->
+              fresh_windows (length (cbs s)) (map (rsc_label s (length (cbs s))) tr0) oss0 = oss0).
+    { induction tr0 as [|l0 r0 IH]; intros [|o q] Ln; cbn [map fresh_windows]; try reflexivity; try discriminate Ln.
+      assert (W : old_watch (length (cbs s)) (rsc_label s (length (cbs s)) l0) = false).
+      { destruct l0; cbn; auto. apply Nat.ltb_ge. lia. }
+      rewrite W. f_equal. apply IH. cbn in Ln. lia. }
+    rewrite Fr in H; [exact H|]. rewrite !map_length. eapply run_length; eauto.
 Qed.
 
 (** * non-vacuity *)
-(* The history: a call (id 1) is served; Callback number 1 (operation 1) is sent under id "1", answered, returns; its
-   watcher is still parked when Stop closes the server; reader and dispatcher exit.  The restarted server then serves
-   a batch holding a call whose id is again 1 and the reply to its new callback: the callback id is renamed (the fresh
-   server sends it under "1", the restarted one under "2", and the replies fed bear "1" and "2"), the id of the
-   call and of its response is not; task, unit and callback indices are shifted by one; the old watcher, released
-   first, is a silent step. *)
+(* The history: a call (id 1) is served; Callback operation 1 is sent under id "1", answered, returns (its watcher
+   stays parked); Callback operation 4 is sent under id "2" and is still unanswered when Stop closes the server: it
+   stays registered, cancelled, its watcher parked; reader and dispatcher exit.  The restarted server then serves a
+   batch holding a call whose id is again 1 and the reply to its new callback: the callback id is renamed (the fresh
+   server sends it under "1", the restarted one under "3", and the replies fed bear "1" and "3"), the id of the call
+   and of its response is not; task and unit indices are shifted by one, callback indices by two.  The watchers of the
+   two old records, released first: the first is silent, the second returns the cancellation of operation 4. *)
 Definition ex_reply (id res : bytes) : jmsg :=
   {| j_id := id; j_method := []; j_params := []; j_error := None; j_result := res; j_err := None |}.
 Definition ex_tr_hist : list label :=
   [LStart; LFeed (FMsg (InMsgs false [ex_call [49%N] [7%N]])); LRelRead; LRelNext; LRelBarrier; LRelAcquire 0;
    LGate [7%N] (ORes [51%N]); LRelHandled 0; LRelDeliver 0; LRelNext;
    LCallPush 1 true [112%N] [113%N]; LRelPush 1; LFeed (FMsg (InMsgs false [ex_reply [49%N] [55%N]])); LRelRead;
+   LCallPush 4 true [112%N] [115%N]; LRelPush 4;
    LCallStop 2; LRelStop 2; LFeed (FErr SCClosing); LRelRead].
 Definition ex_s0 : state := st_of ex_cfg2 ex_tr_hist.
 Definition ex_tr_fresh : list label :=
   [LCallPush 3 true [112%N] [114%N]; LRelPush 3;
    LFeed (FMsg (InMsgs false [ex_call [49%N] [8%N]; ex_reply [49%N] [56%N]])); LRelRead; LRelCbWatch 0;
    LRelNext; LRelBarrier; LRelAcquire 0; LGate [8%N] (ORes [52%N]); LRelHandled 0; LRelDeliver 0].
+Definition ex_tr_restarted : list label := LRelCbWatch 0 :: LRelCbWatch 1 :: map (rsc_label ex_s0 2) ex_tr_fresh.
+Definition ex_ocb' : list cb :=
+  match old_release 0 (cbs ex_s0) (calls ex_s0) with
+  | Some (o1, l1, _) => match old_release 1 o1 l1 with Some (o2, _, _) => o2 | None => [] end
+  | None => []
+  end.
 
 Example restart_simulation_cb_nonvacuous :
   let s := ex_s0 in
-  reach ex_cfg2 s /\ cf_push ex_cfg2 = true /\ wg s = 0 /\ running s = false /\ calls s = [] /\
-  map cb_id (cbs s) = [[49%N]] /\ map cb_watch (cbs s) = [WParked] /\ map cb_op (cbs s) = [1] /\ call_id s = 2 /\
-  length (tasks s) = 1 /\ length (units s) = 1 /\
+  reach ex_cfg2 s /\ cf_push ex_cfg2 = true /\ wg s = 0 /\ running s = false /\ calls s = [([50%N], 1)] /\
+  map cb_id (cbs s) = [[49%N]; [50%N]] /\ map cb_watch (cbs s) = [WParked; WParked] /\ map cb_op (cbs s) = [1; 4] /\
+  call_id s = 3 /\ length (tasks s) = 1 /\ length (units s) = 1 /\
   forallb (lab_ok (map cb_op (cbs s))) ex_tr_fresh = true /\
-  forallb (lab_ok' (call_id s - 1) (map cb_op (cbs s))) (LRelCbWatch 0 :: map (rsc_label s 1) ex_tr_fresh) = true /\
-  strip (tasks s) (units s) 1 1 (LRelCbWatch 0 :: map (rsc_label s 1) ex_tr_fresh) = ex_tr_fresh /\
-  map (rsc_label s 1) ex_tr_fresh =
+  forallb (lab_ok' (call_id s - 1) (map cb_op (cbs s))) ex_tr_restarted = true /\
+  strip (tasks s) (units s) 2 2 ex_tr_restarted = ex_tr_fresh /\
+  map (rsc_label s 2) ex_tr_fresh =
     [LCallPush 3 true [112%N] [114%N]; LRelPush 3;
-     LFeed (FMsg (InMsgs false [ex_call [49%N] [8%N]; ex_reply [50%N] [56%N]])); LRelRead; LRelCbWatch 1;
+     LFeed (FMsg (InMsgs false [ex_call [49%N] [8%N]; ex_reply [51%N] [56%N]])); LRelRead; LRelCbWatch 2;
      LRelNext; LRelBarrier; LRelAcquire 1; LGate [8%N] (ORes [52%N]); LRelHandled 1; LRelDeliver 1] /\
-  exists x oss, run (fresh_of ex_cfg2 s) ex_tr_fresh = Some (x, oss) /\
-    run (started s) (map (rsc_label s 1) ex_tr_fresh) = Some (rsc_emb s (cbs s) x, map (map (ren_obs 1)) oss) /\
-    run (started s) (LRelCbWatch 0 :: map (rsc_label s 1) ex_tr_fresh) =
-      Some (rsc_emb s (mark_done 0 (cbs s)) x, weave 1 1 (LRelCbWatch 0 :: map (rsc_label s 1) ex_tr_fresh) oss) /\
+  map cb_watch ex_ocb' = [WDone; WDone] /\
+  exists x oss oss', run (fresh_of ex_cfg2 s) ex_tr_fresh = Some (x, oss) /\
+    run (started s) (map (rsc_label s 2) ex_tr_fresh) = Some (rsc_emb s (cbs s) (calls s) x, map (map (ren_obs 2)) oss) /\
+    run (started s) ex_tr_restarted = Some (rsc_emb s ex_ocb' [] x, oss') /\
+    fresh_windows 2 ex_tr_restarted oss' = map (map (ren_obs 2)) oss /\
+    old_windows 2 ex_tr_restarted oss' = [[]; [ORet 4 (ACbCtx WCancel)]] /\
     concat oss = [OSendReq true [49%N] [112%N] [114%N]; ORet 3 (ACbRes [56%N]); OStart [8%N] false; OGate [8%N] false;
                   OSend true false [{| r_id := [49%N]; r_body := BRes [52%N] |}]] /\
-    concat (map (map (ren_obs 1)) oss) =
-                 [OSendReq true [50%N] [112%N] [114%N]; ORet 3 (ACbRes [56%N]); OStart [8%N] false; OGate [8%N] false;
+    concat (map (map (ren_obs 2)) oss) =
+                 [OSendReq true [51%N] [112%N] [114%N]; ORet 3 (ACbRes [56%N]); OStart [8%N] false; OGate [8%N] false;
                   OSend true false [{| r_id := [49%N]; r_body := BRes [52%N] |}]].
 Proof.
   cbv zeta. split; [apply reach_st_of; vm_compute; discriminate|].
   repeat (split; [vm_compute; reflexivity|]).
-  eexists _, _. split; [vm_compute; reflexivity|]. repeat (split; [vm_compute; reflexivity|]). vm_compute. reflexivity.
+  eexists _, _, _. split; [vm_compute; reflexivity|]. split; [vm_compute; reflexivity|].
+  split; [vm_compute; reflexivity|]. repeat (split; [vm_compute; reflexivity|]). vm_compute. reflexivity.
 Qed.
 
-(* a reply bearing the id "1" of the old callback, fed to the restarted server: a late reply (C09.5); the reader's
-   window produces nothing and nothing but the reader's own position changes *)
+(* a reply bearing the id "1" of the old callback that has returned, fed to the restarted server: a late reply
+   (C09.5); the reader's window produces nothing and nothing but the reader's own position changes *)
 Example restart_old_reply_unsolicited_nonvacuous :
   let s := ex_s0 in
   let m := ex_reply [49%N] [57%N] in
-  forallb (fun c0 => old_id (call_id s - 1) (cb_id c0)) (cbs s) = true /\ c_push (fresh_of ex_cfg2 s) = true /\ is_req_or_notif m = false /\ j_method m = [] /\
-  has_reply_fields m = true /\ old_id (call_id s - 1) (fix_id (j_id m)) = true /\
+  forallb (fun c0 => old_id (call_id s - 1) (cb_id c0)) (cbs s) = true /\ c_push (fresh_of ex_cfg2 s) = true /\
+  is_req_or_notif m = false /\ j_method m = [] /\
+  has_reply_fields m = true /\ old_id (call_id s - 1) (fix_id (j_id m)) = true /\ assoc (fix_id (j_id m)) (calls s) = None /\
   no_old_feed (call_id s - 1) (FMsg (InMsgs false [m])) = false /\
   exists s', run (started s) [LFeed (FMsg (InMsgs false [m])); LRelRead] = Some (s', [[]; []]) /\
     s' = started s <| rd := RIdle |>.
@@ -1296,7 +1511,7 @@ Example restart_ops_reuse_refuted :
   forallb (lab_ok (map cb_op (cbs s))) tr = false /\
   (exists x, run (fresh_of ex_cfg2 s) tr =
              Some (x, [[]; []; [OSendReq true [49%N] [112%N] [114%N]]; [ORet 1 (ACbCtx WCancel)]])) /\
-  run (started s) (map (rsc_label s 1) tr) = None.
+  run (started s) (map (rsc_label s 2) tr) = None.
 Proof. cbv zeta. split; [vm_compute; reflexivity|]. split; [eexists|]; vm_compute; reflexivity. Qed.
 
 (* hypothesis (ii) is needed: a member with an id but neither method, result nor error is answered under its own id,
@@ -1308,6 +1523,6 @@ Example restart_unshaped_refuted :
   forallb (lab_ok (map cb_op (cbs s))) tr = false /\
   (exists x, run (fresh_of ex_cfg2 s) tr =
      Some (x, [[]; []; []; []; [OSend true false [{| r_id := [49%N]; r_body := BErr InvalidRequest s_empty_method |}]]])) /\
-  (exists x, run (started s) (map (rsc_label s 1) tr) =
-     Some (x, [[]; []; []; []; [OSend true false [{| r_id := [50%N]; r_body := BErr InvalidRequest s_empty_method |}]]])).
+  (exists x, run (started s) (map (rsc_label s 2) tr) =
+     Some (x, [[]; []; []; []; [OSend true false [{| r_id := [51%N]; r_body := BErr InvalidRequest s_empty_method |}]]])).
 Proof. cbv zeta. split; [vm_compute; reflexivity|]. split; eexists; vm_compute; reflexivity. Qed.
